@@ -48,6 +48,11 @@ def c09(ci, nb, nc, seplens, bodyidx, tail, namelen):
     for i in range(nc):
         groups.append('{' + BODIES_BC[(bodyidx + i) % len(BODIES_BC)] + '}')
     seps = [SEP(seplens[i], i == 0) for i in range(len(groups))]
+    if tail == '{u}':
+        # a further brace group written directly behind the run belongs to the run
+        groups.append('{u}')
+        seps.append('')
+        tail = ''
     pre, post = CTX[ci]
     src = pre + '\\' + name + ''.join([s + g for s, g in zip(seps, groups)]) + tail + post
     k = 0
